@@ -319,8 +319,11 @@ InitRescale ==
                         arg |-> [i \in 1..n |-> SetToSortSeq(PA[i], <)], a |-> A]
       /\ \A r \in 1..n : Cardinality(Keep(LEN, inp.ma[r])) >= MinKeep
       /\ fam = "prop" => \A k \in 1..LEN : base[k] > 0
-      \* an RDM without a non-zero entry cannot be scaled
+      \* an RDM without a non-zero entry cannot be scaled; nor can the consensus the iteration starts from
+      \* (the entry-wise mean) when the RDMs cancel exactly on the whole support of some RDM (0/0)
       /\ \A r \in 1..n : \E k \in Keep(LEN, inp.ma[r]) : inp.a[r][k] # 0
+      /\ \A r \in 1..n : \E k \in Keep(LEN, inp.ma[r]) :
+            SumOver({s \in 1..n : k \notin inp.ma[s]}, LAMBDA s : inp.a[s][k]) # 0
 \* RDM r is negatively related to the sum of the others on the entries it has
 AntiRelated(i, r) ==
   SumOver(Keep(LEN, i.ma[r]), LAMBDA k :
